@@ -9,12 +9,7 @@ package format
 //@ global footerPrefix init "---"     [C05 C07]
 
 //@ pred isvalid(s) := len(s) > 0 && (forall j in 0..len(s) :: 33 <= at(s, j) && at(s, j) <= 126)
-//@ specfn issuffix(Bytes, Bytes) Bool
-//@ smt (assert (forall ((s Bytes)) (! (issuffix s s) :pattern ((issuffix s s)))))
-//@ smt (assert (forall ((a Bytes) (b Bytes) (n Int)) (! (=> (and (issuffix a b) (<= 0 n) (<= n (b.len a))) (issuffix (b.sub a n (b.len a)) b)) :pattern ((issuffix (b.sub a n (b.len a)) b)))))
-//@ smt (assert (forall ((a Bytes) (b Bytes)) (! (=> (issuffix a b) (<= (b.len a) (b.len b))) :pattern ((issuffix a b)))))
 
-//@ smt (assert (forall ((a Bytes) (b Bytes) (c Bytes)) (! (=> (and (issuffix a b) (issuffix b c)) (issuffix a c)) :pattern ((issuffix a b) (issuffix b c)))))
 
 //@ func isValidString(s) (ok)
 //@   loop 1 invariant 0 <= $pos && $pos <= len(s) && (forall j in 0..$pos :: 33 <= at(s, j) && at(s, j) <= 126)
@@ -81,13 +76,13 @@ package format
 //@ func (*WrappedBase64Encoder).Write(w, p) (n, err)
 //@   requires w.enc != nil
 //@   assumes#acc err == nil ==> n == len(p) && w.$acc == cat(old(w.$acc), bytes(p))
-//@   assumes#frame w.dst == old(w.dst) && w.$enc == old(w.$enc) && w.$out0 == old(w.$out0) && w.enc == old(w.enc)
+//@   assumes#frame w.dst == old(w.dst) && w.$enc == old(w.$enc) && w.$out0 == old(w.$out0) && w.enc == old(w.enc) && w.written >= old(w.written)
 //@   modifies w.$acc, w.written, w.dst.$out, w.buf.$bbuf
 
 //@ func (*WrappedBase64Encoder).Close(w) (err)
 //@   requires w.enc != nil
 //@   assumes#text err == nil ==> w.dst.$out == cat(w.$out0, wrapcols(0, encof(w.$enc, w.$acc))) && w.written == len(encof(w.$enc, w.$acc)) && w.written >= 0
-//@   assumes#frame w.dst == old(w.dst)
+//@   assumes#frame w.dst == old(w.dst) && w.enc == old(w.enc) && w.written >= old(w.written) && w.$acc == old(w.$acc) && w.$enc == old(w.$enc) && w.$out0 == old(w.$out0)
 //@   modifies w.written, w.dst.$out, w.buf.$bbuf
 
 //@ func (*Stanza).Marshal(r, w) (err)
